@@ -200,8 +200,8 @@ end examples
 the (renamed) value for a successful item that produced the output, `None` if it did not. -/
 theorem collect_aligned (nd : NodeD) (results : List RunOut) (out : AL Val)
     (h : collectAsLists nd results = .ok out) :
-    AL.keys out = nd.outputs ∧
-    ∀ o ∈ nd.outputs, ∃ l : List Val,
+    AL.keys out = collectNames nd ∧
+    ∀ o ∈ collectNames nd, ∃ l : List Val,
       AL.get? out o = some (Val.mkLst l) ∧
       l.length = results.length ∧
       ∀ (i : Nat) (hi : i < results.length) (hl : i < l.length),
@@ -214,16 +214,33 @@ theorem collect_aligned (nd : NodeD) (results : List RunOut) (out : AL Val)
   refine ⟨by simp [AL.keys, List.map_map, Function.comp_def], ?_⟩
   intro o ho
   refine ⟨results.map fun r => collectEntry nd r o, ?_, by simp, ?_⟩
-  · exact AL.get?_of_keys nd.outputs _ o ho
+  · exact AL.get?_of_keys (collectNames nd) _ o ho
   · intro i hi hl
     simp only [List.getElem_map, collectEntry]
     constructor
     · intro hs; simp [hs]
     · intro hs; simp [hs]
 
+/-- the names collected are the declared outputs that are not ordering signals only (the repair "signals are not collected by a
+mapping node": `'done': [None, None]` used to be returned) -/
+theorem collect_no_signal (nd : NodeD) (results : List RunOut) (out : AL Val)
+    (h : collectAsLists nd results = .ok out) (o : Name) (hs : o ∈ nd.signalOuts) : AL.get? out o = none := by
+  have hk := (collect_aligned nd results out h).1
+  cases hg : AL.get? out o with
+  | none => rfl
+  | some v =>
+    have hmem : o ∈ AL.keys out := (AL.mem_keys_iff_has _ _).2 (by simp [AL.has, hg])
+    rw [hk] at hmem
+    have := (List.mem_filter.mp hmem).2
+    simp [List.contains_iff_mem, hs] at this
+
+/-- without signal-only outputs nothing changes: every declared output is collected -/
+theorem collectNames_eq_outputs (nd : NodeD) (h : nd.signalOuts = []) : collectNames nd = nd.outputs := by
+  simp [collectNames, h]
+
 /-- a successful item that produced `o` contributes exactly that value -/
 theorem collect_aligned_value (nd : NodeD) (results : List RunOut) (out : AL Val)
-    (h : collectAsLists nd results = .ok out) (o : Name) (ho : o ∈ nd.outputs)
+    (h : collectAsLists nd results = .ok out) (o : Name) (ho : o ∈ collectNames nd)
     (i : Nat) (hi : i < results.length) (v : Val)
     (hs : results[i].status ≠ .failed)
     (hv : AL.get? (renameOutputs nd results[i].values) o = some v) :
